@@ -300,6 +300,15 @@ def check(ctx):
                     core = core.args[0]
                 if core is not None and base.attr == "s2" and match_square(core) is not None:
                     core = match_square(core)
+                if isinstance(core, ast.Name) and core.id not in params:
+                    # the new row (already squared for s2) parked in a local first
+                    from .common import deref_expr as _dx15
+
+                    core = _dx15(prog, fn, core)
+                    if base.attr == "s2" and match_square(core) is not None:
+                        core = match_square(core)
+                    while isinstance(core, ast.Call) and call_name(core) in ("np.atleast_2d", "np.atleast_1d", "np.array", "np.asarray") and core.args:
+                        core = core.args[0]
                 ok = recv in srcs and srcs[0] == recv and isinstance(core, ast.Name) and core.id in params
                 why = "incremental add: old rows first, then a parameter"
             elif isinstance(v, ast.Subscript) and canon(store_base(v)) == recv:
